@@ -285,6 +285,7 @@ pub open spec fn err_of_protocol<E>(p: ProtocolError) -> Error<E> {
 }
 
 impl<E> From<SerError> for Error<E> {
+#[verifier::spinoff_prover]
 fn from(err: SerError) -> (r: Self)
     ensures
         r == err_of_ser::<E>(err),
@@ -301,6 +302,7 @@ impl<E> vstd::std_specs::convert::FromSpecImpl<SerError> for Error<E> {
 }
 
 impl<E> From<ProtocolError> for Error<E> {
+#[verifier::spinoff_prover]
 fn from(p: ProtocolError) -> (r: Self)
     ensures
         r == err_of_protocol::<E>(p),
@@ -323,6 +325,7 @@ impl<E> vstd::std_specs::convert::FromSpecImpl<ProtocolError> for Error<E> {
 }
 
 impl<E> From<DeError> for Error<E> {
+#[verifier::spinoff_prover]
 fn from(err: DeError) -> (r: Self)
     ensures
         r == Error::<E>::Peer(PeerError::InvalidPacket),
@@ -337,6 +340,7 @@ impl<E> vstd::std_specs::convert::FromSpecImpl<DeError> for Error<E> {
 }
 
 impl<E> From<PeerError> for Error<E> {
+#[verifier::spinoff_prover]
 fn from(err: PeerError) -> (r: Self)
     ensures
         r == Error::<E>::Peer(err),
@@ -350,6 +354,7 @@ impl<E> vstd::std_specs::convert::FromSpecImpl<PeerError> for Error<E> {
 }
 
 impl<E> From<ResourceError> for Error<E> {
+#[verifier::spinoff_prover]
 fn from(err: ResourceError) -> (r: Self)
     ensures
         r == Error::<E>::Resource(err),
@@ -387,6 +392,7 @@ impl<P, T> vstd::std_specs::convert::FromSpecImpl<Error<T>> for PubError<P, T> {
 }
 
 impl<P, T> From<SerPubError<P>> for PubError<P, T> {
+#[verifier::spinoff_prover]
 fn from(e: SerPubError<P>) -> (r: Self)
     ensures
         r == (match e { SerPubError::Payload(x) => PubError::<P, T>::Payload(x), SerPubError::Encode(x) => PubError::<P, T>::Session(err_of_ser(x)) }),
@@ -404,6 +410,7 @@ impl<P, T> vstd::std_specs::convert::FromSpecImpl<SerPubError<P>> for PubError<P
     }
 }
 impl<P, T> From<ProtocolError> for PubError<P, T> {
+#[verifier::spinoff_prover]
 fn from(err: ProtocolError) -> (r: Self)
     ensures
         r == PubError::<P, T>::Session(err_of_protocol(err)),
@@ -733,6 +740,7 @@ impl vstd::std_specs::convert::FromSpecImpl<ReasonCode> for u8 {
     open spec fn from_spec(c: ReasonCode) -> Self { rc_u8(c) }
 }
 impl From<&ReasonCode> for u8 {
+#[verifier::spinoff_prover]
 fn from(code: &ReasonCode) -> (r: u8)
     ensures
         r == rc_u8(*code),
@@ -748,6 +756,7 @@ impl vstd::std_specs::convert::FromSpecImpl<&ReasonCode> for u8 {
 pub open spec fn rc_success(c: ReasonCode) -> bool { rc_u8(c) < 0x80 }
 
 impl ReasonCode {
+#[verifier::spinoff_prover]
 fn success(&self) -> (r: bool)
     ensures
         r == rc_success(*self),
@@ -755,12 +764,14 @@ fn success(&self) -> (r: bool)
         let value: u8 = self.into();
         value < 0x80
     }
+#[verifier::spinoff_prover]
 fn failed(&self) -> (r: bool)
     ensures
         r == !rc_success(*self),
 {
         !self.success()
     }
+#[verifier::spinoff_prover]
 fn as_result(&self) -> (r: Result<(), PeerError>)
     ensures
         r == (if rc_success(*self) { Ok::<(), PeerError>(()) } else { Err::<(), PeerError>(PeerError::Rejected(*self)) }),
@@ -776,6 +787,7 @@ pub open spec fn reason_of(r: Reason) -> ReasonCode {
     match r.reason { Some(d) => d.code, None => ReasonCode::Success }
 }
 impl<'a> Reason<'a> {
+#[verifier::spinoff_prover]
 fn code(&self) -> (r: ReasonCode)
     ensures
         r == reason_of(*self),
@@ -792,6 +804,7 @@ impl vstd::std_specs::convert::FromSpecImpl<ReasonCode> for Reason<'_> {
     open spec fn from_spec(code: ReasonCode) -> Self { reason_from(code) }
 }
 impl From<ReasonCode> for Reason<'_> {
+#[verifier::spinoff_prover]
 fn from(code: ReasonCode) -> (r: Self)
     ensures
         r.reason matches Some(d) && d.code == code && d._properties is None,
@@ -1074,18 +1087,21 @@ pub proof fn lemma_first_ctl(c: Seq<PendingControl>, a: ControlAction, k: int)
 
 // ---------------------------------------------------------------- SendState
 impl SendState {
+#[verifier::spinoff_prover]
 fn is_fresh(self) -> (r: bool)
     ensures
         r == st_fresh(self),
 {
         matches!(self, Self::Write { written: 0 })
     }
+#[verifier::spinoff_prover]
 fn is_in_progress(self) -> (r: bool)
     ensures
         r == st_in_progress(self),
 {
         matches!(self, Self::Write { written: 1.. } | Self::Flush)
     }
+#[verifier::spinoff_prover]
 fn set_written(&mut self, written: usize, len: usize)
     ensures
         *final(self) == sw(written, len),
@@ -1096,6 +1112,7 @@ fn set_written(&mut self, written: usize, len: usize)
             Self::Write { written }
         };
     }
+#[verifier::spinoff_prover]
 fn matches_priority(self, in_progress: bool) -> (r: bool)
     ensures
         r == (if in_progress { st_in_progress(self) } else { st_fresh(self) }),
@@ -1303,6 +1320,7 @@ pub open spec fn compacted(o: Outbound) -> bool {
 }
 
 impl<'a> Outbound<'a> {
+#[verifier::spinoff_prover]
 fn new(buf: &'a mut [u8]) -> (r: Self)
     ensures
         r.used == 0 && r.pending_control@.len() == 0 && r.retained@.len() == 0 && r.pending_release@.len() == 0,
@@ -1321,6 +1339,7 @@ fn new(buf: &'a mut [u8]) -> (r: Self)
         }
     }
 
+#[verifier::spinoff_prover]
 fn clear(&mut self)
     ensures
         final(self).used == 0 && final(self).pending_control@.len() == 0 && final(self).retained@.len() == 0 && final(self).pending_release@.len() == 0,
@@ -1336,6 +1355,7 @@ fn clear(&mut self)
         self.pending_release.clear();
     }
 
+#[verifier::spinoff_prover]
 fn has_pending_state(&self) -> (r: bool)
     ensures
         r == !(self.pending_control@.len() == 0 && self.retained@.len() == 0 && self.pending_release@.len() == 0),
@@ -1345,6 +1365,7 @@ fn has_pending_state(&self) -> (r: bool)
             || !self.pending_release.is_empty()
     }
 
+#[verifier::spinoff_prover]
 fn is_quiescent(&self) -> (r: bool)
     ensures
         r == (self.pending_control@.len() == 0 && self.retained@.len() == 0 && self.pending_release@.len() == 0),
@@ -1352,6 +1373,7 @@ fn is_quiescent(&self) -> (r: bool)
         !self.has_pending_state()
     }
 
+#[verifier::spinoff_prover]
 fn retained_full(&self) -> (r: bool)
     ensures
         r == (self.retained@.len() == MAX_RETAINED),
@@ -1359,36 +1381,42 @@ fn retained_full(&self) -> (r: bool)
         self.retained.is_full()
     }
 
+#[verifier::spinoff_prover]
 fn used(&self) -> (r: usize)
     ensures
         r == self.used,
 { proof { reveal(wfs); } 
         self.used
     }
+#[verifier::spinoff_prover]
 fn capacity(&self) -> (r: usize)
     ensures
         r == bv(*self).len(),
 { proof { reveal(wfs); } 
         self.buf.len()
     }
+#[verifier::spinoff_prover]
 fn retained_len(&self) -> (r: usize)
     ensures
         r == self.retained@.len(),
 { proof { reveal(wfs); } 
         self.retained.len()
     }
+#[verifier::spinoff_prover]
 fn pending_control_len(&self) -> (r: usize)
     ensures
         r == self.pending_control@.len(),
 { proof { reveal(wfs); } 
         self.pending_control.len()
     }
+#[verifier::spinoff_prover]
 fn pending_release_len(&self) -> (r: usize)
     ensures
         r == self.pending_release@.len(),
 { proof { reveal(wfs); } 
         self.pending_release.len()
     }
+#[verifier::spinoff_prover]
 fn max_inflight(&self) -> (r: u16)
     ensures
         r == 8,
@@ -1396,6 +1424,7 @@ fn max_inflight(&self) -> (r: u16)
         MAX_RETAINED.min(MAX_PENDING_RELEASE) as u16
     }
 
+#[verifier::spinoff_prover]
 fn used_after_compact(&self) -> (r: usize)
     requires
         wf(*self),
@@ -1419,6 +1448,7 @@ fn used_after_compact(&self) -> (r: usize)
         __acc1 }
     }
 
+#[verifier::spinoff_prover]
 fn scratch_len(&self) -> (r: usize)
     requires
         wf(*self),
@@ -1430,6 +1460,7 @@ fn scratch_len(&self) -> (r: usize)
         self.buf.len().saturating_sub(self.used_after_compact())
     }
 
+#[verifier::spinoff_prover]
 fn can_retain(&self) -> (r: bool)
     requires
         wf(*self),
@@ -1440,6 +1471,7 @@ fn can_retain(&self) -> (r: bool)
             && self.scratch_len() >= MAX_FIXED_HEADER_SIZE
     }
 
+#[verifier::spinoff_prover]
 fn compact(&mut self)
     requires
         wf(*old(self)),
@@ -1518,6 +1550,7 @@ fn compact(&mut self)
         }
     }
 
+#[verifier::spinoff_prover]
 fn scratch_space(&mut self) -> (r: &mut [u8])
     requires
         wf(*old(self)),
@@ -1532,6 +1565,7 @@ fn scratch_space(&mut self) -> (r: &mut [u8])
         &mut self.buf[self.used..]
     }
 
+#[verifier::spinoff_prover]
 fn queue_control(&mut self, action: ControlAction) -> (r: Result<(), ProtocolError>)
     requires
         wf(*old(self)),
@@ -1551,6 +1585,7 @@ fn queue_control(&mut self, action: ControlAction) -> (r: Result<(), ProtocolErr
             }) { Ok(__v) => Ok(__v), Err(_) => Err(ProtocolError::InflightMetadataExhausted) })
     }
 
+#[verifier::spinoff_prover]
 fn has_pending_pingreq(&self) -> (r: bool)
     ensures
         r == (exists|i: int| 0 <= i < self.pending_control@.len() && (#[trigger] self.pending_control@[i]).action == ControlAction::PingReq && self.pending_control@[i].state != SendState::Sent),
@@ -1558,6 +1593,7 @@ fn has_pending_pingreq(&self) -> (r: bool)
         self.pending_control.any_of(|entry| -> (__r: bool) ensures __r == (matches!(entry.action, ControlAction::PingReq) && entry.state != SendState::Sent) { matches!(entry.action, ControlAction::PingReq) && entry.state != SendState::Sent })
     }
 
+#[verifier::spinoff_prover]
 fn ack_packet(&mut self, packet_id: u16) -> (r: bool)
     requires
         wf(*old(self)),
@@ -1583,6 +1619,7 @@ fn ack_packet(&mut self, packet_id: u16) -> (r: bool)
         true
     }
 
+#[verifier::spinoff_prover]
 fn has_retained(&self, packet_id: u16) -> (r: bool)
     ensures
         r == has_ret(self.retained@, packet_id),
@@ -1590,6 +1627,7 @@ fn has_retained(&self, packet_id: u16) -> (r: bool)
         self.retained.any_of(|entry| -> (__r: bool) ensures __r == (entry.packet_id == packet_id) { entry.packet_id == packet_id })
     }
 
+#[verifier::spinoff_prover]
 fn queue_release(
         &mut self,
         packet_id: u16,
@@ -1614,6 +1652,7 @@ fn queue_release(
             }) { Ok(__v) => Ok(__v), Err(_) => Err(ProtocolError::InflightMetadataExhausted) })
     }
 
+#[verifier::spinoff_prover]
 fn ack_release(&mut self, packet_id: u16) -> (r: bool)
     requires
         wf(*old(self)),
@@ -1636,6 +1675,7 @@ fn ack_release(&mut self, packet_id: u16) -> (r: bool)
         true
     }
 
+#[verifier::spinoff_prover]
 fn has_pending_release(&self, packet_id: u16) -> (r: bool)
     ensures
         r == has_rel(self.pending_release@, packet_id),
@@ -1643,6 +1683,7 @@ fn has_pending_release(&self, packet_id: u16) -> (r: bool)
         self.pending_release.any_of(|pending| -> (__r: bool) ensures __r == (pending.packet_id == packet_id) { pending.packet_id == packet_id })
     }
 
+#[verifier::spinoff_prover]
 fn mark_retained_dup(&mut self)
     requires
         wf(*old(self)),
@@ -1689,6 +1730,7 @@ fn mark_retained_dup(&mut self)
 
 }
 
+#[verifier::spinoff_prover]
 fn retained_packet(&self, offset: usize, len: usize) -> (r: &[u8])
     requires
         offset + len <= bv(*self).len() && bv(*self).len() <= usize::MAX,
@@ -1698,6 +1740,7 @@ fn retained_packet(&self, offset: usize, len: usize) -> (r: &[u8])
         &self.buf[offset..offset + len]
     }
 
+#[verifier::spinoff_prover]
 fn retain_packet(
         &mut self,
         packet_id: u16,
@@ -1727,6 +1770,7 @@ fn retain_packet(
         Ok(())
     }
 
+#[verifier::spinoff_prover]
 fn set_control_written(
         &mut self,
         action: ControlAction,
@@ -1757,6 +1801,7 @@ fn set_control_written(
         }
     }
 
+#[verifier::spinoff_prover]
 fn flush_control(&mut self, action: ControlAction) -> (found: bool)
     requires
         wf(*old(self)),
@@ -1802,6 +1847,7 @@ fn flush_control(&mut self, action: ControlAction) -> (found: bool)
         found
     }
 
+#[verifier::spinoff_prover]
 fn set_retained_written(
         &mut self,
         packet_id: u16,
@@ -1831,6 +1877,7 @@ fn set_retained_written(
         }
     }
 
+#[verifier::spinoff_prover]
 fn flush_retained(&mut self, packet_id: u16) -> (r: bool)
     requires
         wf(*old(self)),
@@ -1854,6 +1901,7 @@ fn flush_retained(&mut self, packet_id: u16) -> (r: bool)
         }
     }
 
+#[verifier::spinoff_prover]
 fn set_release_written(
         &mut self,
         packet_id: u16,
@@ -1884,6 +1932,7 @@ fn set_release_written(
         }
     }
 
+#[verifier::spinoff_prover]
 fn flush_release(&mut self, packet_id: u16) -> (r: bool)
     requires
         wf(*old(self)),
@@ -1908,6 +1957,7 @@ fn flush_release(&mut self, packet_id: u16) -> (r: bool)
         }
     }
 
+#[verifier::spinoff_prover]
 fn next_step(&self) -> (r: Option<OutboundStep>)
     ensures
         r == next_step_spec(*self),
@@ -1992,6 +2042,7 @@ fn next_step(&self) -> (r: Option<OutboundStep>)
         None
     }
 
+#[verifier::spinoff_prover]
 fn arm_replay(&mut self)
     requires
         wf(*old(self)),
@@ -2157,6 +2208,7 @@ pub open spec fn rel_bytes(id: u16, reason: ReasonCode) -> Seq<u8> {
 pub proof fn lemma_ctl_len(a: ControlAction) ensures ctl_bytes(a).len() == ctl_len(a) {}
 
 #[verifier::external_body]
+#[verifier::spinoff_prover]
 fn encode_control_packet(buffer: &mut [u8], packet: ControlAction) -> (r: Result<&[u8], ProtocolError>)
     ensures
         final(buffer)@.len() == old(buffer)@.len(),
@@ -2165,6 +2217,7 @@ fn encode_control_packet(buffer: &mut [u8], packet: ControlAction) -> (r: Result
 { unimplemented!() }
 
 #[verifier::external_body]
+#[verifier::spinoff_prover]
 fn encode_pubrel(
     buffer: &mut [u8],
     packet_id: u16,
@@ -2176,6 +2229,7 @@ fn encode_pubrel(
         r matches Err(e) ==> e is Encode,
 { unimplemented!() }
 
+#[verifier::spinoff_prover]
 fn require_packet_size(maximum_packet_size: Option<u32>, len: usize) -> (r: Result<(), ProtocolError>)
     ensures
         r == (if too_large(maximum_packet_size, len) { Err::<(), ProtocolError>(ProtocolError::PacketTooLarge) } else { Ok::<(), ProtocolError>(()) }),
@@ -2186,6 +2240,7 @@ fn require_packet_size(maximum_packet_size: Option<u32>, len: usize) -> (r: Resu
     Ok(())
 }
 
+#[verifier::spinoff_prover]
 fn serialize_control_packet<E>(
     buffer: &mut [u8],
     packet: ControlAction,
@@ -2204,6 +2259,7 @@ fn serialize_control_packet<E>(
     Ok(bytes)
 }
 
+#[verifier::spinoff_prover]
 fn check_control_packet_size(
     maximum_packet_size: Option<u32>,
     action: ControlAction,
@@ -2216,6 +2272,7 @@ fn check_control_packet_size(
     require_packet_size(maximum_packet_size, len)
 }
 
+#[verifier::spinoff_prover]
 fn check_pubrel_size(
     maximum_packet_size: Option<u32>,
     packet_id: u16,
@@ -2229,6 +2286,7 @@ fn check_pubrel_size(
     require_packet_size(maximum_packet_size, len)
 }
 
+#[verifier::spinoff_prover]
 fn serialize_pubrel<E>(
     buffer: &mut [u8],
     packet_id: u16,
@@ -2281,6 +2339,7 @@ pub open spec fn ping_deadline(keepalive: Duration, now: Instant) -> Option<Inst
 }
 
 impl RuntimeState {
+#[verifier::spinoff_prover]
 fn reset_transport(&mut self)
     ensures
         final(self).session_resumed == false && final(self).next_ping is None && final(self).ping_timeout is None,
@@ -2293,6 +2352,7 @@ fn reset_transport(&mut self)
         self.ping_timeout = None;
     }
 
+#[verifier::spinoff_prover]
 fn keepalive_send_interval(&self) -> (r: Option<Duration>)
     requires
         self.keepalive_interval.ticks() / 1000 <= u64::MAX,
@@ -2310,6 +2370,7 @@ fn keepalive_send_interval(&self) -> (r: Option<Duration>)
         Some(Duration::from_millis(keepalive_ms - lead_ms))
     }
 
+#[verifier::spinoff_prover]
 fn note_outbound_activity(&mut self, now: Instant)
     requires
         old(self).keepalive_interval.ticks() / 1000 <= u64::MAX,
@@ -2327,6 +2388,7 @@ fn note_outbound_activity(&mut self, now: Instant)
             .keepalive_send_interval() { Some(interval) => Some(now + interval), None => None });
     }
 
+#[verifier::spinoff_prover]
 fn require_packet_size<E>(&self, len: usize) -> (r: Result<(), Error<E>>)
     ensures
         r == (if too_large(self.maximum_packet_size, len)
@@ -2340,6 +2402,7 @@ fn require_packet_size<E>(&self, len: usize) -> (r: Result<(), Error<E>>)
         Ok(())
     }
 
+#[verifier::spinoff_prover]
 fn next_deadline(&self) -> (r: Option<Instant>)
     ensures
         r == (match (self.next_ping, self.ping_timeout) {
@@ -2490,6 +2553,7 @@ pub proof fn lemma_probe_bound(o: Outbound, start: u16, k: nat)
 }
 
 impl<'a> SessionData<'a> {
+#[verifier::spinoff_prover]
 fn new(outbound: &'a mut [u8]) -> (r: Self)
     ensures
         r.packet_id.v == 1 && r.generation == 0 && !r.session_present && r.pending_server_packet_ids@.len() == 0
@@ -2508,6 +2572,7 @@ fn new(outbound: &'a mut [u8]) -> (r: Self)
         }
     }
 
+#[verifier::spinoff_prover]
 fn mark_session_present(&mut self)
     ensures
         final(self).session_present && final(self).packet_id == old(self).packet_id && final(self).generation == old(self).generation
@@ -2517,6 +2582,7 @@ fn mark_session_present(&mut self)
         self.session_present = true;
     }
 
+#[verifier::spinoff_prover]
 fn reset(&mut self)
     requires
         sd_inv(*old(self)),
@@ -2542,6 +2608,7 @@ fn reset(&mut self)
 
 }
 
+#[verifier::spinoff_prover]
 fn generation(&self) -> (r: u32)
     ensures
         r == self.generation,
@@ -2549,6 +2616,7 @@ fn generation(&self) -> (r: u32)
         self.generation
     }
 
+#[verifier::spinoff_prover]
 fn next_packet_id(&mut self) -> (r: u16)
     requires
         sd_inv(*old(self)),
@@ -2807,6 +2875,7 @@ pub open spec fn ctl_pushed(o1: Outbound, o0: Outbound, a: ControlAction) -> boo
 }
 
 impl<'a> SessionData<'a> {
+#[verifier::spinoff_prover]
 #[verifier::rlimit(200)]
 fn handle_packet(
         &mut self,
@@ -3221,6 +3290,7 @@ pub proof fn lemma_vterm(v: u8, i: usize)
 }
 
 impl<'a> PacketReader<'a> {
+#[verifier::spinoff_prover]
 fn new(buffer: &'a mut [u8]) -> (r: PacketReader<'a>)
     ensures
         r.read_bytes == 0 && r.packet_length is None && rbuf(r) == old(buffer)@ && reader_inv(r),
@@ -3235,6 +3305,7 @@ fn new(buffer: &'a mut [u8]) -> (r: PacketReader<'a>)
         }
     }
 
+#[verifier::spinoff_prover]
 fn capacity(&self) -> (r: usize)
     ensures
         r == rbuf(*self).len(),
@@ -3242,6 +3313,7 @@ fn capacity(&self) -> (r: usize)
         self.buffer.len()
     }
 
+#[verifier::spinoff_prover]
 fn commit(&mut self, count: usize)
     requires
         reader_inv(*old(self)),
@@ -3257,6 +3329,7 @@ fn commit(&mut self, count: usize)
 
     }
 
+#[verifier::spinoff_prover]
 fn packet_available(&self) -> (r: bool)
     ensures
         r == (self.packet_length matches Some(t) && self.read_bytes >= t),
@@ -3267,6 +3340,7 @@ fn packet_available(&self) -> (r: bool)
         }
     }
 
+#[verifier::spinoff_prover]
 fn reset(&mut self)
     ensures
         final(self).read_bytes == 0 && final(self).packet_length is None && rbuf(*final(self)) == rbuf(*old(self)),
@@ -3280,6 +3354,7 @@ fn reset(&mut self)
         self.packet_length = None;
     }
 
+#[verifier::spinoff_prover]
 fn probe_fixed_header(&mut self) -> (r: Result<(), ProtocolError>)
     requires
         reader_inv(*old(self)) && old(self).packet_length is None,
@@ -3348,6 +3423,7 @@ fn probe_fixed_header(&mut self) -> (r: Result<(), ProtocolError>)
         Ok(())
     }
 
+#[verifier::spinoff_prover]
 fn receive_buffer(&mut self) -> (r: Result<&mut [u8], ProtocolError>)
     requires
         reader_inv(*old(self)),
@@ -3386,6 +3462,7 @@ fn receive_buffer(&mut self) -> (r: Result<&mut [u8], ProtocolError>)
         }
     }
 
+#[verifier::spinoff_prover]
 fn take_packet(&mut self) -> (r: Result<(usize, ReceivedPacket<'_>), ProtocolError>)
     requires
         old(self).packet_length matches Some(t) ==> t <= rbuf(*old(self)).len(),
@@ -3412,6 +3489,7 @@ fn take_packet(&mut self) -> (r: Result<(usize, ReceivedPacket<'_>), ProtocolErr
         ))
     }
 
+#[verifier::spinoff_prover]
 fn received_packet(&mut self) -> (r: Result<ReceivedPacket<'_>, ProtocolError>)
     requires
         old(self).packet_length matches Some(t) ==> t <= rbuf(*old(self)).len(),
@@ -3520,6 +3598,7 @@ pub struct Connection<'a, 'buf> {
 }
 
 impl Op {
+#[verifier::spinoff_prover]
 fn new(kind: OpKind, packet_id: u16, generation: u32) -> (r: Self)
     ensures
         r == (Op { kind, packet_id, generation }),
@@ -3550,18 +3629,21 @@ pub open spec fn status_spec(s: Session, op: Op) -> OpStatus {
 }
 
 impl<'buf> Session<'buf> {
+#[verifier::spinoff_prover]
 fn max_rx_packet_size(&self) -> (r: usize)
     ensures
         r == rbuf(self.packet_reader).len(),
 {
         self.packet_reader.capacity()
     }
+#[verifier::spinoff_prover]
 fn max_tx_packet_size(&self) -> (r: usize)
     ensures
         r == bv(self.data.outbound).len(),
 {
         self.data.outbound.capacity()
     }
+#[verifier::spinoff_prover]
 fn can_publish(&self, qos: QoS) -> (r: bool)
     requires
         sess_inv(*self),
@@ -3576,12 +3658,14 @@ fn can_publish(&self, qos: QoS) -> (r: bool)
             self.runtime.send_quota != 0 && self.data.outbound.can_retain()
         }
     }
+#[verifier::spinoff_prover]
 fn is_publish_quiescent(&self) -> (r: bool)
     ensures
         r == (self.data.outbound.pending_control@.len() == 0 && self.data.outbound.retained@.len() == 0 && self.data.outbound.pending_release@.len() == 0),
 {
         self.data.outbound.is_quiescent()
     }
+#[verifier::spinoff_prover]
 fn status(&self, op: &Op) -> (r: OpStatus)
     ensures
         r == status_spec(*self, *op),
@@ -3606,18 +3690,21 @@ fn status(&self, op: &Op) -> (r: OpStatus)
             OpStatus::Complete
         }
     }
+#[verifier::spinoff_prover]
 fn is_pending(&self, op: &Op) -> (r: bool)
     ensures
         r == (status_spec(*self, *op) == OpStatus::Pending),
 {
         self.status(op) == OpStatus::Pending
     }
+#[verifier::spinoff_prover]
 fn is_complete(&self, op: &Op) -> (r: bool)
     ensures
         r == (status_spec(*self, *op) == OpStatus::Complete),
 {
         self.status(op) == OpStatus::Complete
     }
+#[verifier::spinoff_prover]
 fn is_invalidated(&self, op: &Op) -> (r: bool)
     ensures
         r == (status_spec(*self, *op) == OpStatus::Invalidated),
@@ -3641,6 +3728,7 @@ pub struct InboundPublish<'a> {
     pub qos: QoS,
 }
 impl<'a> InboundPublish<'a> {
+#[verifier::spinoff_prover]
 fn new(
         topic: &'a str,
         payload: &'a [u8],
@@ -4030,6 +4118,7 @@ pub open spec fn ping_expired(s: Session, now: Instant) -> bool {
 }
 
 impl<'buf> Session<'buf> {
+#[verifier::spinoff_prover]
 fn handle_disconnect(&mut self)
     requires
         sd_inv(old(self).data),
@@ -4058,6 +4147,7 @@ fn handle_disconnect(&mut self)
 }
 
 impl<'a, 'buf> Connection<'a, 'buf> {
+#[verifier::spinoff_prover]
 fn handle_disconnect(&mut self)
     requires
         sd_inv(cs(*old(self)).data),
@@ -4084,6 +4174,7 @@ fn handle_disconnect(&mut self)
 
 }
 
+#[verifier::spinoff_prover]
 fn set_written(&mut self, packet: FlushedPacket, written: usize, len: usize)
     requires
         conn_inv(*old(self)),
@@ -4116,6 +4207,7 @@ fn set_written(&mut self, packet: FlushedPacket, written: usize, len: usize)
 
 }
 
+#[verifier::spinoff_prover]
 fn complete_flush(&mut self, packet: FlushedPacket, now: Instant)
     requires
         conn_inv(*old(self)),
@@ -4150,6 +4242,7 @@ fn complete_flush(&mut self, packet: FlushedPacket, now: Instant)
 
 }
 
+#[verifier::spinoff_prover]
 async fn flush_current(
         &mut self,
         packet: FlushedPacket,
@@ -4183,6 +4276,9 @@ async fn flush_current(
         if !self.live {
             return Err(Error::Disconnected);
         }
+        assert(conn_inv(*self));
+
+
         if let Err(err) = self.io.flush().await {
 
             self.handle_disconnect();
@@ -4196,6 +4292,7 @@ async fn flush_current(
         Ok(())
     }
 
+#[verifier::spinoff_prover]
 async fn perform_outbound_step(
         &mut self,
         step: OutboundStep,
@@ -4312,6 +4409,9 @@ async fn perform_outbound_step(
         let packet = match prepared {
             PreparedStep::Write(packet) => packet,
             PreparedStep::Flush(packet) => {
+        assert(conn_inv(*self));
+
+
                 (match self.flush_current(packet, now).await { Ok(__v) => __v, Err(__e) => return Err(From::from(__e)) });
                 return Ok(true);
             }
@@ -4346,12 +4446,16 @@ async fn perform_outbound_step(
         if written < len {
             return Ok(true);
         }
+        assert(conn_inv(*self));
+
+
         (match self.flush_current(packet, now).await { Ok(__v) => __v, Err(__e) => return Err(From::from(__e)) });
         proof { lemma_written_then_flushed(cs(*self).data.outbound, o1, o0, packet, written, len); lemma_inflight_trans(cs(*self).data.outbound, o1, o0); }
 
         Ok(true)
     }
 
+#[verifier::spinoff_prover]
 fn should_queue_pingreq(&self, now: Instant) -> (r: bool)
     ensures
         r == ping_due(cs(*self), now),
@@ -4364,6 +4468,7 @@ fn should_queue_pingreq(&self, now: Instant) -> (r: bool)
             && !self.session.data.outbound.has_pending_pingreq()
     }
 
+#[verifier::spinoff_prover]
 fn maybe_queue_pingreq(&mut self, now: Instant) -> (r: Result<(), Error<IoErr>>)
     requires
         conn_inv(*old(self)),
@@ -4396,6 +4501,7 @@ fn maybe_queue_pingreq(&mut self, now: Instant) -> (r: Result<(), Error<IoErr>>)
         Ok(())
     }
 
+#[verifier::spinoff_prover]
 async fn service_outbound_once(&mut self, now: Instant) -> (r: Result<bool, Error<IoErr>>)
     requires
         conn_inv(*old(self)),
@@ -4417,9 +4523,13 @@ async fn service_outbound_once(&mut self, now: Instant) -> (r: Result<bool, Erro
         let Some(step) = self.session.data.outbound.next_step() else {
             return Ok(false);
         };
+        assert(conn_inv(*self));
+
+
         self.perform_outbound_step(step, now).await
     }
 
+#[verifier::spinoff_prover]
 async fn service(&mut self, now: Instant) -> (r: Result<bool, Error<IoErr>>)
     requires
         conn_inv(*old(self)),
@@ -4446,9 +4556,13 @@ async fn service(&mut self, now: Instant) -> (r: Result<bool, Error<IoErr>>)
             self.handle_disconnect();
             return Err(Error::Disconnected);
         }
+        assert(conn_inv(*self));
+
+
         self.service_outbound_once(now).await
     }
 
+#[verifier::spinoff_prover]
 async fn read_packet(&mut self) -> (r: Result<(), Error<IoErr>>)
     requires
         conn_inv(*old(self)),
@@ -4470,6 +4584,9 @@ async fn read_packet(&mut self) -> (r: Result<(), Error<IoErr>>)
         if !self.live {
             return Err(Error::Disconnected);
         }
+        assert(conn_inv(*self));
+
+
         if let Err(err) = fill_packet_reader(&mut self.session.packet_reader, &mut self.io).await {
             match &err {
                 Error::Transport(err) => (),
@@ -4482,6 +4599,7 @@ async fn read_packet(&mut self) -> (r: Result<(), Error<IoErr>>)
         Ok(())
     }
 
+#[verifier::spinoff_prover]
 fn process_received_packet(&mut self) -> (r: Result<Option<usize>, Error<IoErr>>)
     requires
         conn_inv(*old(self)),
@@ -4546,6 +4664,7 @@ fn process_received_packet(&mut self) -> (r: Result<Option<usize>, Error<IoErr>>
         }
     }
 
+#[verifier::spinoff_prover]
 fn decode_inbound_publish(&self, packet_length: usize) -> (r: InboundPublish<'_>)
     requires
         packet_length <= rbuf(cs(*self).packet_reader).len()
@@ -4571,6 +4690,7 @@ fn decode_inbound_publish(&self, packet_length: usize) -> (r: InboundPublish<'_>
         )
     }
 
+#[verifier::spinoff_prover]
 #[verifier::exec_allows_no_decreases_clause]
 async fn flush_outbound(&mut self) -> (r: Result<(), Error<IoErr>>)
     requires
@@ -4615,10 +4735,14 @@ async fn flush_outbound(&mut self) -> (r: Result<(), Error<IoErr>>)
             let Some(step) = self.session.data.outbound.next_step() else {
                 return Ok(());
             };
+        assert(conn_inv(*self));
+
+
             (match self.perform_outbound_step(step, Instant::now()).await { Ok(__v) => __v, Err(__e) => return Err(From::from(__e)) });
         }
     }
 
+#[verifier::spinoff_prover]
 #[verifier::exec_allows_no_decreases_clause]
 async fn drive_packet(&mut self) -> (r: Result<Progress, Error<IoErr>>)
     requires
@@ -4657,7 +4781,10 @@ async fn drive_packet(&mut self) -> (r: Result<Progress, Error<IoErr>>)
             }
 
             let now = Instant::now();
-            { let __t = (match self.service(now).await { Ok(__v) => __v, Err(__e) => return Err(From::from(__e)) }); advanced = advanced || __t; }
+            {
+        assert(conn_inv(*self));
+
+ let __t = (match self.service(now).await { Ok(__v) => __v, Err(__e) => return Err(From::from(__e)) }); advanced = advanced || __t; }
 
             if self.session.packet_reader.packet_available() {
                 match (match self.process_received_packet() { Ok(__v) => __v, Err(__e) => return Err(From::from(__e)) }) {
@@ -4679,6 +4806,7 @@ async fn drive_packet(&mut self) -> (r: Result<Progress, Error<IoErr>>)
         }
     }
 
+#[verifier::spinoff_prover]
 async fn drive(&mut self) -> (r: Result<Option<InboundPublish<'_>>, Error<IoErr>>)
     requires
         conn_inv(*old(self)),
@@ -4688,12 +4816,16 @@ async fn drive(&mut self) -> (r: Result<Option<InboundPublish<'_>>, Error<IoErr>
         r matches Err(e) ==> (e is Transport || e is Disconnected || e == Error::<IoErr>::Peer(PeerError::InvalidPacket)) ==> !final(self).live,
         conn_inv(*final(self)),
 {
+        assert(conn_inv(*self));
+
+
         Ok(match (match self.drive_packet().await { Ok(__v) => __v, Err(__e) => return Err(From::from(__e)) }) {
             Progress::Inbound(packet_length) => Some(self.decode_inbound_publish(packet_length)),
             Progress::Idle | Progress::Advanced => None,
         })
     }
 
+#[verifier::spinoff_prover]
 #[verifier::exec_allows_no_decreases_clause]
 async fn wait_for_progress(&mut self) -> (r: Result<Progress, Error<IoErr>>)
     requires
@@ -4714,6 +4846,9 @@ async fn wait_for_progress(&mut self) -> (r: Result<Progress, Error<IoErr>>)
                 !old(self).live ==> self.io == old(self).io && *self.session == *old(self).session && !self.live,
                 sd_frame(cs(*self).data, cs(*old(self)).data), self.event == old(self).event && cfg_same(cs(*self), cs(*old(self))),
 {
+        assert(conn_inv(*self));
+
+
             match (match self.drive_packet().await { Ok(__v) => __v, Err(__e) => return Err(From::from(__e)) }) {
                 Progress::Inbound(packet_length) => {
                     return Ok(Progress::Inbound(packet_length));
@@ -4723,6 +4858,10 @@ async fn wait_for_progress(&mut self) -> (r: Result<Progress, Error<IoErr>>)
             }
 
             let deadline = self.session.runtime.next_deadline();
+        assert(conn_inv(*self));
+        assert(conn_inv(*self));
+
+
 
             match deadline {
                 Some(deadline) => match self.read_packet_until(deadline).await {
@@ -4735,6 +4874,7 @@ async fn wait_for_progress(&mut self) -> (r: Result<Progress, Error<IoErr>>)
         }
     }
 
+#[verifier::spinoff_prover]
 async fn poll(&mut self) -> (r: Result<Option<InboundPublish<'_>>, Error<IoErr>>)
     requires
         conn_inv(*old(self)),
@@ -4744,6 +4884,9 @@ async fn poll(&mut self) -> (r: Result<Option<InboundPublish<'_>>, Error<IoErr>>
         r matches Err(e) ==> (e is Transport || e is Disconnected || e == Error::<IoErr>::Peer(PeerError::InvalidPacket)) ==> !final(self).live,
         conn_inv(*final(self)),
 {
+        assert(conn_inv(*self));
+
+
         match (match self.wait_for_progress().await { Ok(__v) => __v, Err(__e) => return Err(From::from(__e)) }) {
             Progress::Inbound(packet_length) => {
                 Ok(Some(self.decode_inbound_publish(packet_length)))
@@ -4753,6 +4896,7 @@ async fn poll(&mut self) -> (r: Result<Option<InboundPublish<'_>>, Error<IoErr>>
         }
     }
 
+#[verifier::spinoff_prover]
 #[verifier::exec_allows_no_decreases_clause]
 async fn recv(&mut self) -> (r: Result<InboundPublish<'_>, Error<IoErr>>)
     requires
@@ -4768,6 +4912,9 @@ async fn recv(&mut self) -> (r: Result<InboundPublish<'_>, Error<IoErr>>)
                 conn_inv(*self), self.live ==> old(self).live,
                 !old(self).live ==> self.io == old(self).io && *self.session == *old(self).session && !self.live,
 {
+        assert(conn_inv(*self));
+
+
             match (match self.wait_for_progress().await { Ok(__v) => __v, Err(__e) => return Err(From::from(__e)) }) {
                 Progress::Inbound(packet_length) => {
                     return Ok(self.decode_inbound_publish(packet_length));
@@ -4803,6 +4950,7 @@ async fn recv(&mut self) -> (r: Result<InboundPublish<'_>, Error<IoErr>>)
     { unimplemented!() }
 }
 
+#[verifier::spinoff_prover]
 async fn write_current(connection: &mut VIo, bytes: &[u8]) -> (r: Result<usize, Error<IoErr>>)
     ensures
         r matches Ok(n) ==> 0 < n <= bytes@.len() && final(connection).wire@ == old(connection).wire@ + bytes@.subrange(0, n as int),
@@ -4844,6 +4992,7 @@ pub open spec fn reader_ready(r: PacketReader) -> bool {
     r.packet_length matches Some(t) && r.read_bytes >= t && t <= rbuf(r).len()
 }
 
+#[verifier::spinoff_prover]
 async fn fill_packet_reader<'buf>(
     packet_reader: &mut PacketReader<'buf>,
     connection: &mut VIo,
@@ -4974,6 +5123,7 @@ impl<'a> Properties<'a> {
     { unimplemented!() }
 }
 impl<'a> Disconnect<'a> {
+#[verifier::spinoff_prover]
 fn success() -> (r: Self)
     ensures
         r.reason_code is None && r.properties is None,
@@ -4983,6 +5133,7 @@ fn success() -> (r: Self)
             properties: None,
         }
     }
+#[verifier::spinoff_prover]
 fn with_reason(reason_code: ReasonCode) -> (r: Self)
     ensures
         r.reason_code == Some(reason_code) && r.properties is None,
@@ -4992,12 +5143,14 @@ fn with_reason(reason_code: ReasonCode) -> (r: Self)
             properties: None,
         }
     }
+#[verifier::spinoff_prover]
 fn with_will() -> (r: Self)
     ensures
         r.reason_code == Some(ReasonCode::DisconnectWithWill) && r.properties is None,
 {
         Self::with_reason(ReasonCode::DisconnectWithWill)
     }
+#[verifier::spinoff_prover]
 fn with_properties(self, properties: &'a [Property<'a>]) -> (r: Self)
     ensures
         r.reason_code == (if self.reason_code is None { Some(ReasonCode::Success) } else { self.reason_code })
@@ -5009,12 +5162,14 @@ fn with_properties(self, properties: &'a [Property<'a>]) -> (r: Self)
         self__m.properties = Some(Properties::from_slice(properties));
         self__m
     }
+#[verifier::spinoff_prover]
 fn reason_code(&self) -> (r: ReasonCode)
     ensures
         r == (match self.reason_code { Some(c) => c, None => ReasonCode::Success }),
 {
         self.reason_code.unwrap_or(ReasonCode::Success)
     }
+#[verifier::spinoff_prover]
 fn properties(&self) -> (r: Option<&Properties<'a>>)
     ensures
         r == (match self.properties { Some(p) => Some(&p), None => None }),
@@ -5023,6 +5178,7 @@ fn properties(&self) -> (r: Option<&Properties<'a>>)
     }
 }
 
+#[verifier::spinoff_prover]
 async fn write_all(
     connection: &mut VIo,
     bytes__0: &[u8],
@@ -5064,6 +5220,7 @@ async fn write_all(
 }
 
 
+#[verifier::spinoff_prover]
 async fn write_packet<T>(
     buffer: &mut [u8],
     connection: &mut VIo,
@@ -5186,6 +5343,7 @@ pub open spec fn session_can_publish(s: Session, qos: QoS) -> bool {
 }
 
 impl<'a, 'buf> Connection<'a, 'buf> {
+#[verifier::spinoff_prover]
 fn require_retained_slot(&self) -> (r: Result<(), Error<IoErr>>)
     ensures
         r == (if cs(*self).data.outbound.retained@.len() == MAX_RETAINED { Err::<(), Error<IoErr>>(Error::Resource(ResourceError::InflightExhausted)) } else { Ok::<(), Error<IoErr>>(()) }),
@@ -5196,6 +5354,7 @@ fn require_retained_slot(&self) -> (r: Result<(), Error<IoErr>>)
         Ok(())
     }
 
+#[verifier::spinoff_prover]
 async fn disconnect_with(
         &mut self,
         disconnect: Disconnect<'_>,
@@ -5229,6 +5388,10 @@ async fn disconnect_with(
         let mut buffer = [0u8; CONTROL_PACKET_LEN];
         let packet = (match MqttSerializer::encode(&mut buffer, &disconnect) { Ok(__v) => __v, Err(__e) => return Err(From::from(__e)) });
         (match self.session.runtime.require_packet_size(packet.len()) { Ok(__v) => __v, Err(__e) => return Err(From::from(__e)) });
+        assert(conn_inv(*self));
+        assert(conn_inv(*self));
+
+
         let result = match write_all(&mut self.io, packet).await {
             Ok(()) => (match self.io.flush().await { Ok(__v) => Ok(__v), Err(__e) => Err(Error::Transport(__e)) }),
             Err(err) => Err(err),
@@ -5238,6 +5401,7 @@ async fn disconnect_with(
         result
     }
 
+#[verifier::spinoff_prover]
 async fn disconnect_with__d7(
         &mut self,
         disconnect: Disconnect<'_>,
@@ -5266,6 +5430,7 @@ async fn disconnect_with__d7(
         result
     }
 
+#[verifier::spinoff_prover]
 async fn disconnect(&mut self) -> (r: Result<(), Error<IoErr>>)
     requires
         conn_inv(*old(self)),
@@ -5275,11 +5440,13 @@ async fn disconnect(&mut self) -> (r: Result<(), Error<IoErr>>)
         conn_inv(*final(self)),
 {
         proof { axiom_enc_disconnect_success(); }
+        assert(conn_inv(*self));
 
 
         self.disconnect_with(Disconnect::success()).await
     }
 
+#[verifier::spinoff_prover]
 async fn subscribe(
         &mut self,
         topics: &[TopicFilter<'_>],
@@ -5318,6 +5485,9 @@ async fn subscribe(
         if !Properties::from_slice(properties).valid_for(PropertyContext::Subscribe) {
             return Err(Error::InvalidRequest);
         }
+        assert(conn_inv(*self));
+
+
         (match self.flush_outbound().await { Ok(__v) => __v, Err(__e) => return Err(From::from(__e)) });
         let ghost o1 = cs(*self).data.outbound;
 
@@ -5347,6 +5517,9 @@ async fn subscribe(
             assert(ret_sig(o4.retained@).drop_last() =~= ret_sig(o3.retained@));
             lemma_first_ret_bounds(o4.retained@, packet_id);
         }
+        assert(conn_inv(*self));
+
+
 
         (match self.flush_outbound().await { Ok(__v) => __v, Err(__e) => return Err(From::from(__e)) });
         proof {
@@ -5362,6 +5535,7 @@ async fn subscribe(
         ))
     }
 
+#[verifier::spinoff_prover]
 async fn unsubscribe(
         &mut self,
         topics: &[&str],
@@ -5400,6 +5574,9 @@ async fn unsubscribe(
         if !Properties::from_slice(properties).valid_for(PropertyContext::Unsubscribe) {
             return Err(Error::InvalidRequest);
         }
+        assert(conn_inv(*self));
+
+
         (match self.flush_outbound().await { Ok(__v) => __v, Err(__e) => return Err(From::from(__e)) });
         let ghost o1 = cs(*self).data.outbound;
 
@@ -5429,6 +5606,9 @@ async fn unsubscribe(
             assert(ret_sig(o4.retained@).drop_last() =~= ret_sig(o3.retained@));
             lemma_first_ret_bounds(o4.retained@, packet_id);
         }
+        assert(conn_inv(*self));
+
+
 
         (match self.flush_outbound().await { Ok(__v) => __v, Err(__e) => return Err(From::from(__e)) });
         proof {
@@ -5444,6 +5624,7 @@ async fn unsubscribe(
         ))
     }
 
+#[verifier::spinoff_prover]
 fn can_publish(&self, qos: QoS) -> (r: bool)
     requires
         conn_inv(*self),
@@ -5453,6 +5634,7 @@ fn can_publish(&self, qos: QoS) -> (r: bool)
         self.live && self.session.can_publish(qos)
     }
 
+#[verifier::spinoff_prover]
 fn is_connected(&self) -> (r: bool)
     ensures
         r == self.live,
@@ -5460,6 +5642,7 @@ fn is_connected(&self) -> (r: bool)
         self.live
     }
 
+#[verifier::spinoff_prover]
 #[verifier::rlimit(100)]
 async fn publish<P>(
         &mut self,
@@ -5503,6 +5686,9 @@ where
         if !self.live {
             return Err(Error::Disconnected.into());
         }
+        assert(conn_inv(*self));
+
+
         (match self.flush_outbound().await { Ok(__v) => __v, Err(__e) => return Err(From::from(__e)) });
         let ghost o1 = cs(*self).data.outbound;
         let ghost q1 = cs(*self).runtime.send_quota;
@@ -5561,6 +5747,9 @@ where
             }
 
             self.session.runtime.send_quota = self.session.runtime.send_quota.saturating_sub(1);
+        assert(conn_inv(*self));
+
+
 
             (match self.flush_outbound().await { Ok(__v) => __v, Err(__e) => return Err(From::from(__e)) });
             let kind = if qos == QoS::ExactlyOnce {
@@ -5599,6 +5788,9 @@ where
             self.handle_disconnect();
             return Err(err.into());
         }
+        assert(conn_inv(*self));
+
+
         if let Err(err) = self.io.flush().await {
 
             self.handle_disconnect();
@@ -5718,6 +5910,7 @@ pub proof fn lemma_armed_idle(o1: Outbound, o0: Outbound)
 }
 
 impl<'buf> Session<'buf> {
+#[verifier::spinoff_prover]
 #[verifier::exec_allows_no_decreases_clause]
 #[verifier::rlimit(100)]
 async fn connect_handshake(
@@ -5895,6 +6088,7 @@ async fn connect_handshake(
         }
     }
 
+#[verifier::spinoff_prover]
 async fn connect(
         &mut self,
         io__0: VIo,
@@ -5954,6 +6148,7 @@ impl<'a> Properties<'a> {
     #[verifier::external_body]
     pub fn correlation_data(&'a self) -> (r: Option<&'a [u8]>) ensures r == props_correlation(*self) { unimplemented!() }
 
+#[verifier::spinoff_prover]
 fn with_properties(self, properties: &'a [Property<'a>]) -> (r: Self)
     ensures
         r.inner == (match self.inner {
@@ -5971,6 +6166,7 @@ fn with_properties(self, properties: &'a [Property<'a>]) -> (r: Self)
             PropertiesData::Slice(_) | PropertiesData::Encoded(_) => Self::from_slice(properties),
         }
     }
+#[verifier::spinoff_prover]
 fn with_correlation(self, data: &'a [u8]) -> (r: Self)
     ensures
         r.inner matches PropertiesData::WithCorrelation { correlation, properties: p } && correlation == Property::CorrelationData(data),
@@ -6000,6 +6196,7 @@ fn with_correlation(self, data: &'a [u8]) -> (r: Self)
 }
 
 impl<'a, P> Publication<'a, P> {
+#[verifier::spinoff_prover]
 fn new(topic: &'a str, payload: P) -> (r: Self)
     ensures
         r.topic == topic && r.payload == payload && r.qos == QoS::AtMostOnce && r.retain == Retain::NotRetained
@@ -6013,6 +6210,7 @@ fn new(topic: &'a str, payload: P) -> (r: Self)
             retain: Retain::NotRetained,
         }
     }
+#[verifier::spinoff_prover]
 fn qos(self, qos: QoS) -> (r: Self)
     ensures
         r.qos == qos && r.topic == self.topic && r.payload == self.payload && r.retain == self.retain && r.properties == self.properties,
@@ -6020,6 +6218,7 @@ fn qos(self, qos: QoS) -> (r: Self)
         self__m.qos = qos;
         self__m
     }
+#[verifier::spinoff_prover]
 fn retain(self) -> (r: Self)
     ensures
         r.retain == Retain::Retained && r.topic == self.topic && r.payload == self.payload && r.qos == self.qos && r.properties == self.properties,
@@ -6027,6 +6226,7 @@ fn retain(self) -> (r: Self)
         self__m.retain = Retain::Retained;
         self__m
     }
+#[verifier::spinoff_prover]
 fn properties(self, properties: &'a [Property<'a>]) -> (r: Self)
     ensures
         r.topic == self.topic && r.payload == self.payload && r.qos == self.qos && r.retain == self.retain
@@ -6038,6 +6238,7 @@ fn properties(self, properties: &'a [Property<'a>]) -> (r: Self)
         self__m.properties = self__m.properties.with_properties(properties);
         self__m
     }
+#[verifier::spinoff_prover]
 fn correlate(self, data: &'a [u8]) -> (r: Self)
     ensures
         r.topic == self.topic && r.payload == self.payload && r.qos == self.qos && r.retain == self.retain
@@ -6054,6 +6255,7 @@ fn correlate(self, data: &'a [u8]) -> (r: Self)
 }
 
 impl<'a> ResponseTarget<'a> {
+#[verifier::spinoff_prover]
 fn publication<P>(self, payload: P) -> (r: Publication<'a, P>)
     ensures
         r.topic == self.topic && r.payload == payload && r.qos == QoS::AtMostOnce && r.retain == Retain::NotRetained,
@@ -6071,42 +6273,49 @@ fn publication<P>(self, payload: P) -> (r: Publication<'a, P>)
 }
 
 impl<'a> InboundPublish<'a> {
+#[verifier::spinoff_prover]
 fn topic(&self) -> (r: &'a str)
     ensures
         r == self.topic,
 {
         self.topic
     }
+#[verifier::spinoff_prover]
 fn payload(&self) -> (r: &'a [u8])
     ensures
         r == self.payload,
 {
         self.payload
     }
+#[verifier::spinoff_prover]
 fn retained(&self) -> (r: bool)
     ensures
         r == (self.retain == Retain::Retained),
 {
         matches!(self.retain, Retain::Retained)
     }
+#[verifier::spinoff_prover]
 fn qos(&self) -> (r: QoS)
     ensures
         r == self.qos,
 {
         self.qos
     }
+#[verifier::spinoff_prover]
 fn response_topic(&'a self) -> (r: Option<&'a str>)
     ensures
         r == props_response_topic(self.properties),
 {
         self.properties.response_topic()
     }
+#[verifier::spinoff_prover]
 fn correlation_data(&'a self) -> (r: Option<&'a [u8]>)
     ensures
         r == props_correlation(self.properties),
 {
         self.properties.correlation_data()
     }
+#[verifier::spinoff_prover]
 fn response_target(&'a self) -> (r: Option<ResponseTarget<'a>>)
     ensures
         r == (match props_response_topic(self.properties) {
@@ -6119,6 +6328,7 @@ fn response_target(&'a self) -> (r: Option<ResponseTarget<'a>>)
             correlation_data: self.correlation_data(),
         })
     }
+#[verifier::spinoff_prover]
 fn reply<P>(&'a self, payload: P) -> (r: Option<Publication<'a, P>>)
     ensures
         props_response_topic(self.properties) is None ==> r is None,
